@@ -153,7 +153,11 @@ def run_shard(ctx):
                                       ("(bad)", ["$0x10", "%rax"]), ("call", ["0x180157700"]), ("jmp", ["0x0"]), ("jne", ["0x10"]), ("call", ["0"]), ("jmp", ["0x0"]),
                                       ("lods", ["%ds:(%rsi)", "%al"]), ("scas", ["%es:(%rdi)", "%rax"]), ("outsb", ["%ds:(%rsi)", "(%dx)"]), ("lods", ["%ds:(%rsi)", "%eax"]),
                                       ("vgetmantpd", ["$0x4", "{sae}", "%zmm1", "%zmm2"]), ("vrndscalesd", ["$0x3", "{sae}", "%xmm1", "%xmm2", "%xmm3"]),
-                                      ("vaddps", ["{rn-sae}", "%zmm1", "%zmm2", "%zmm3"]), ("mov", ["%fs:0x28", "%rax"]), ("mov", ["$0x10", "%gs:0x0(%rax)"])]):
+                                      ("vaddps", ["{rn-sae}", "%zmm1", "%zmm2", "%zmm3"]), ("mov", ["%fs:0x28", "%rax"]), ("mov", ["$0x10", "%gs:0x0(%rax)"]),
+                                      # commas inside the parentheses of an operand that starts with a segment override and / or `*`
+                                      ("call", ["*%fs:0x8(%rax,%rcx,8)"]), ("jmp", ["*%gs:0x0(,%rax,8)"]), ("call", ["*%fs:0x10(%rax)"]), ("jmp", ["*%fs:(%rbx)"]),
+                                      ("mov", ["%fs:0x10(%rax,%rbx,4)", "%rcx"]), ("mov", ["%rcx", "%gs:(%rax,%rbx,1)"]), ("call", ["*0x8(%rax,%rcx,8)"]),
+                                      ("jmp", ["*(%rax,%rbx,8)"]), ("lea", ["%cs:0x0(%rax,%rax,1)", "%rsi"])]):
             insts.append(L.SInst(a0 + 8 * k, m, ops, None, None, 5))
         judge_listing(ctx, ws, L.render(insts, ctx.rng), "syn" if ctx.rng.random() < 0.7 else "syn-crlf")
 
